@@ -160,7 +160,14 @@ def run_gp(case):
         XS = np.array([x for x, _ in pts])
         vb = np.asarray(post.logpdf(XS), dtype=float)
         single = np.array([float(np.asarray(post.logpdf(x)).ravel()[0]) for x, _ in pts])
-        if vb.shape != (len(pts),) or not np.allclose(vb, single, rtol=1e-9, atol=1e-10, equal_nan=True):
+        # log Phi(t) amplifies the rounding differences between GPy's batch and single-point predictions by about t^2:
+        # values are compared with a tolerance scaled by the conditioning of the log density at the point
+        mu_b, var_b = gp._gp.predict(XS)
+        tt = np.abs((thr - mu_b[:, 0]) / np.sqrt(var_b[:, 0]))
+        tol = 1e-9 * (1.0 + np.abs(single)) * (1.0 + tt ** 2)
+        finite = np.isfinite(single)
+        if vb.shape != (len(pts),) or not np.array_equal(np.isfinite(vb), finite) or \
+                np.any(np.abs(vb[finite] - single[finite]) > tol[finite] + 1e-10):
             return bad('C10:posterior:batch-differs-from-single-points', dict(what, shape=list(vb.shape)))
         # (ii) gradient vs central differences
         for x, inside in pts:
@@ -168,7 +175,7 @@ def run_gp(case):
                 continue
             lo = np.array([b[0] for b in BOUNDS[dim]])
             hi = np.array([b[1] for b in BOUNDS[dim]])
-            h = 1e-6 * (hi - lo)
+            h = 1e-5 * (hi - lo)
             if np.any(x - lo < 10 * h) or np.any(hi - x < 10 * h):
                 continue
             g = np.asarray(post.gradient_logpdf(x), dtype=float).reshape(-1)
@@ -176,7 +183,10 @@ def run_gp(case):
             for j in range(dim):
                 e = np.zeros(dim)
                 e[j] = h[j]
-                num[j] = (ref_logpost(gp, prior, thr, x + e) - ref_logpost(gp, prior, thr, x - e)) / (2 * h[j])
+                f = lambda t: ref_logpost(gp, prior, thr, x + t * e)   # noqa: E731
+                # 5-point stencil (error O(h^4)): the log density is extremely steep where the mean is far above the
+                # threshold, a 3-point difference is not accurate to 1e-4 there
+                num[j] = (-f(2) + 8 * f(1) - 8 * f(-1) + f(-2)) / (12 * h[j])
             nev += 1
             if not np.allclose(g, num, rtol=1e-4, atol=1e-6 * (1 + np.abs(num).max())):
                 return bad('C10:posterior:gradient-differs-from-derivative', dict(what, x=x.tolist(), got=g.tolist(),
@@ -331,7 +341,7 @@ def run(ctx):
         'reference mean/variance/gradients come from the underlying GPy model object (model._gp.predict / predictive_gradients)',
         'fast path compared with atol 1e-6*(rbf variance + bias) and rtol 1e-6 (gradients 1e-5); fitted GPs with '
         'cond(K + s^2 I) > 1e8 are skipped and counted',
-        'posterior gradient compared with central differences of the reference log density (h = 1e-6 * width, rtol 1e-4) '
+        'posterior gradient compared with a 5-point stencil of the reference log density (h = 1e-5 * width, rtol 1e-4) '
         'at grid points at least 10h away from the bounds',
         'multi-point calls of the fast path are outside the statement ("single-point")',
         'the posterior prior is an analytic independent normal; ModelPrior itself is C08',
